@@ -161,6 +161,16 @@ impl Dmd {
     }
 }
 
+/// Read-only DUART snapshot of the process-global machine behind the C
+/// interface (`None` when the mutex is poisoned).
+#[cfg(dmd_core_verif)]
+pub fn verif_global_duart_snapshot() -> Option<Vec<i64>> {
+    match DMD.lock() {
+        Ok(dmd) => Some(dmd.bus.verif_duart().verif_snapshot()),
+        Err(_) => None,
+    }
+}
+
 //
 // Provide a C interface
 //
